@@ -40,10 +40,117 @@ func eachInstr(f *ssa.Function, fn func(ssa.Instruction)) {
 // withAnon returns f and all nested anonymous functions.
 func withAnon(f *ssa.Function) []*ssa.Function {
 	out := []*ssa.Function{f}
+	seen := map[*ssa.Function]bool{f: true}
 	for i := 0; i < len(out); i++ {
-		out = append(out, out[i].AnonFuncs...)
+		for _, a := range out[i].AnonFuncs {
+			if !seen[a] {
+				seen[a] = true
+				out = append(out, a)
+			}
+		}
+		// a method value of the same package used as a function literal (`db.Update(entry.put)`)
+		// is part of the function's own code, like a literal would be
+		eachInstr(out[i], func(ins ssa.Instruction) {
+			if mc, ok := ins.(*ssa.MakeClosure); ok {
+				if m := boundMethod(mc); m != nil && m.Pkg == f.Pkg && len(m.Blocks) > 0 && !seen[m] {
+					seen[m] = true
+					out = append(out, m)
+				}
+			}
+		})
 	}
 	return out
+}
+
+// boundMethod: mc is a method value (`x.m`): the method it is bound to, or nil.
+func boundMethod(mc *ssa.MakeClosure) *ssa.Function {
+	w, ok := mc.Fn.(*ssa.Function)
+	if !ok || !strings.HasPrefix(w.Synthetic, "bound method wrapper") || len(mc.Bindings) != 1 {
+		return nil
+	}
+	var m *ssa.Function
+	eachInstr(w, func(i ssa.Instruction) {
+		if cl, ok := i.(ssa.CallInstruction); ok {
+			if cal := cl.Common().StaticCallee(); cal != nil {
+				m = cal
+			}
+		}
+	})
+	return m
+}
+
+var boundSitesCache = map[*ssa.Package]map[*ssa.Function][]*ssa.MakeClosure{}
+
+// boundSites lists the method values of m created in m's own package.
+func boundSites(m *ssa.Function) []*ssa.MakeClosure {
+	if m == nil || m.Pkg == nil {
+		return nil
+	}
+	tab, ok := boundSitesCache[m.Pkg]
+	if !ok {
+		tab = map[*ssa.Function][]*ssa.MakeClosure{}
+		var scan func(f *ssa.Function)
+		scan = func(f *ssa.Function) {
+			eachInstr(f, func(i ssa.Instruction) {
+				if mc, ok := i.(*ssa.MakeClosure); ok {
+					if bm := boundMethod(mc); bm != nil {
+						tab[bm] = append(tab[bm], mc)
+					}
+				}
+			})
+			for _, a := range f.AnonFuncs {
+				scan(a)
+			}
+		}
+		for _, mem := range m.Pkg.Members {
+			switch x := mem.(type) {
+			case *ssa.Function:
+				scan(x)
+			case *ssa.Type:
+				for _, t := range []types.Type{x.Type(), types.NewPointer(x.Type())} {
+					ms := m.Prog.MethodSets.MethodSet(t)
+					for k := 0; k < ms.Len(); k++ {
+						if fn := m.Prog.MethodValue(ms.At(k)); fn != nil && fn.Pkg == m.Pkg {
+							scan(fn)
+						}
+					}
+				}
+			}
+		}
+		boundSitesCache[m.Pkg] = tab
+	}
+	return tab[m]
+}
+
+// receiverField: v loads a field of the receiver of a method that is used (exactly once) as a
+// method value on a local struct whose field was set exactly once: the value stored there.
+func receiverField(v ssa.Value) ssa.Value {
+	ld, ok := v.(*ssa.UnOp)
+	if !ok || ld.Op != token.MUL {
+		return nil
+	}
+	fa, ok := ld.X.(*ssa.FieldAddr)
+	if !ok {
+		return nil
+	}
+	prm, ok := fa.X.(*ssa.Parameter)
+	if !ok || prm.Parent() == nil || len(prm.Parent().Params) == 0 || prm.Parent().Params[0] != prm || prm.Parent().Signature.Recv() == nil {
+		return nil
+	}
+	sites := boundSites(prm.Parent())
+	if len(sites) != 1 {
+		return nil
+	}
+	al, ok := sites[0].Bindings[0].(*ssa.Alloc)
+	if !ok {
+		return nil
+	}
+	vals, cnt := allocStores(al)
+	name := fieldOfAddr(fa).Name()
+	if cnt[name] != 1 {
+		return nil
+	}
+	return vals[name]
 }
 
 // fieldOfAddr returns the struct field selected by a FieldAddr/Field value, or nil.
